@@ -234,6 +234,21 @@ class CosSum(Member):
     def stationary(self):
         return np.zeros(self.dim)
 
+    def stationary_list(self):
+        """several stationary points with DIFFERENT values (non-convex): A x in pi Z^k"""
+        out = [np.zeros(self.dim)]
+        try:
+            Ap = np.linalg.pinv(self.A)
+            for j in range(len(self.A)):
+                n = np.zeros(len(self.A))
+                n[j] = math.pi
+                x = Ap @ n
+                if np.max(np.abs(np.sin(self.A @ x))) < 1e-12 and np.linalg.norm(self.grad(x)) < 1e-10 * (1 + abs(self.c)):
+                    out.append(x)
+        except np.linalg.LinAlgError:
+            pass
+        return out
+
     def self_test(self, rng, n=12):
         L = abs(self.c) * np.linalg.norm(self.A.T @ self.A, 2)
         return L <= self.params["L"] * (1 + 1e-9), "L=%.4g vs %.4g" % (L, self.params["L"])
@@ -538,6 +553,22 @@ class LinearMap(Member):
             pass
         return None
 
+    def fixed_point_list(self):
+        """fixed points of x -> M (x - c): one when M - I is invertible, several (a whole affine subspace) when 1 is an
+        eigenvalue of M (identity, projections: the non-expansive limit L = 1)"""
+        B = self.M - np.eye(self.dim)
+        rhs = self.M @ self.c
+        x, *_ = np.linalg.lstsq(B, rhs, rcond=None)
+        if np.max(np.abs(B @ x - rhs)) > 1e-10 * (1 + np.max(np.abs(rhs))):
+            return []
+        out = [x]
+        u, sv, vt = np.linalg.svd(B)
+        null = vt[sv < 1e-12 * max(1.0, sv.max())] if len(sv) else vt
+        for k, z in enumerate(null[:2]):
+            out.append(x + (1.5 + k) * z)
+        out = [p_ for p_ in out if np.max(np.abs(self.grad(p_) - p_)) < 1e-9 * (1 + np.max(np.abs(p_)))]
+        return out
+
     def prox(self, x, gamma):
         B = np.eye(self.dim) + gamma * self.M
         try:
@@ -831,6 +862,12 @@ def make_member(cls, params, rng, dim=None, partition_blocks=None):
     if cls == "CocoerciveStronglyMonotoneOperator":
         mu, beta = p["mu"], p["beta"]
         return LinearMap(cls, p, _sym_with_spectrum(rng, d, mu, 1.0 / beta), c)
+    if cls in ("LipschitzOperator", "NonexpansiveOperator") and p.get("L", 1.0) == 1.0 and not p.get("with_v") and rng.random() < 0.2:
+        # the non-expansive limit: identity and orthogonal projections have a whole subspace of fixed points
+        Q = _rand_orth(rng, d)
+        rk = rng.randint(1, d)
+        Pm = Q[:, :rk] @ Q[:, :rk].T
+        return LinearMap(cls, p, Pm if rng.random() < 0.7 else I, np.zeros(d))
     if cls == "LipschitzOperator":
         L = p["L"]
         r = rng.random()
